@@ -30,7 +30,7 @@ enum OpKind {
 //   copy/move construct/assign: a = source object; swap: a = other object, c = 1: ADL swap
 //   warp: a = k (additions left before the generation counter wraps)
 //   steal (scripts only): the callback moves from its by-value argument
-enum { U_VARIANT = 0, U_FUEL = 1, U_FILL = 2, U_OBJECTS = 3 };
+enum { U_VARIANT = 0, U_FUEL = 1, U_FILL = 2, U_OBJECTS = 3, U_EQMOD = 4 };
 enum {
 	V_LIST_SINGLE = 0, V_LIST_MULTI = 1, V_LIST_SPIN = 2, V_LIST_SIM = 3, V_LIST_CUSTOMCB = 4,
 	V_DISP_DEFAULT = 5, V_DISP_SINGLE_MAP = 6, V_DISP_SIM = 7, V_DISP_CUSTOMCB = 8, V_COUNT = 9
@@ -41,12 +41,16 @@ typedef Tracked<seq::T_PAY, false> Payload;
 struct Fn;
 struct Sink { virtual void onCall(const Fn & f, int a, Payload & p) = 0; virtual ~Sink() {} };
 extern Sink * g_sink;
+// callbacks compare equal when their ids agree modulo g_eqMod (0: only with themselves): the eventutil helpers must act on
+// the FIRST equal callback, which only shows when several equal ones are registered
+extern int g_eqMod;
+inline int eqClass(int id) { return g_eqMod > 0 ? id % g_eqMod : id; }
 
 struct Fn : Tracked<seq::T_FN, false>
 {
 	explicit Fn(int id) : Tracked<seq::T_FN, false>(id) {}
 	void operator() (int a, Payload p) const { g_sink->onCall(*this, a, p); }
-	bool operator == (const Fn & o) const { faultPoint(F_CMP); return id == o.id; }
+	bool operator == (const Fn & o) const { faultPoint(F_CMP); return eqClass(id) == eqClass(o.id); }
 };
 
 struct Counters
@@ -184,6 +188,12 @@ struct Interp : Sink
 	{
 		const std::vector<MItem> & l = model[o][e];
 		for(size_t i = 0; i < l.size(); ++i) if(l[i].cb == cb) return (int)i;
+		return -1;
+	}
+	int findEqual(int o, int e, int cb) const
+	{
+		const std::vector<MItem> & l = model[o][e];
+		for(size_t i = 0; i < l.size(); ++i) if(eqClass(l[i].cb) == eqClass(cb)) return (int)i;
 		return -1;
 	}
 	bool slotPresentIn(int slot, int o, int e) const { return slot >= 0 && slot < MAXSLOT && slotUsed[slot] && slotObj[slot] == o && slotEv[slot] == e; }
@@ -436,7 +446,7 @@ struct Interp : Sink
 		case O_HAS_LISTENER: case O_REMOVE_LISTENER: case O_HAS_ANY: {
 			if(!aliveObj(o) || !Box::hasUtil) return;
 			const int cb = op.b;
-			const int idx = op.k == O_HAS_ANY ? (model[o][e].empty() ? -1 : 0) : findItem(o, e, cb);
+			const int idx = op.k == O_HAS_ANY ? (model[o][e].empty() ? -1 : 0) : findEqual(o, e, cb);
 			const bool expected = idx >= 0;
 			bool got;
 			{
@@ -777,6 +787,7 @@ void runBox(const Plan & plan, RunOut & out, bool inSim)
 		{
 			Interp<Box> * in = new Interp<Box>(plan, faultMode);
 			g_sink = in;
+			g_eqMod = Box::hasUtil ? plan.user(U_EQMOD) : 0;
 			if(inSim) {
 				std::string fc, fd;
 				Interp<Box> * ip = in;
@@ -870,6 +881,7 @@ void runVariant8(const Plan & p, RunOut & o) { runBox<DispBox<PolCustomCbMulti, 
 namespace sl {
 
 Sink * g_sink = nullptr;
+int g_eqMod = 0;
 Counters counters;
 
 void runVariant0(const Plan &, RunOut &); void runVariant1(const Plan &, RunOut &); void runVariant2(const Plan &, RunOut &);
@@ -968,6 +980,7 @@ struct Gen
 		plan.user(U_VARIANT) = variant;
 		disp = variant >= V_DISP_DEFAULT;
 		util = variant == V_LIST_CUSTOMCB || variant == V_DISP_CUSTOMCB;
+		if(util && rng.chance(1, 2)) plan.user(U_EQMOD) = 2 + (int)rng.below(6);
 		canWarp = !disp && mode != "c20";
 		nEvents = disp ? 2 + (int)rng.below(2) : 1;
 		nObj = pool ? 2 + (int)rng.below(2) : 1;
